@@ -35,7 +35,7 @@ _built = False
 def build_harness():
     """(re)build the harness against /repo's current working tree, hooks enabled (cargo decides what is stale)"""
     global _built
-    if _built:
+    if _built or os.environ.get("VERIF_BIN_DIR"):      # VERIF_BIN_DIR: development only (tools/coverage.sh), pre-built instrumented engines
         return
     lock = os.path.join(HARNESS, "Cargo.lock")
     if not os.path.exists(lock):
@@ -52,7 +52,7 @@ def build_harness():
 
 def run_bin(name, args, timeout=1800, env=None, check=True):
     build_harness()
-    exe = os.path.join(HARNESS, "target", "debug", name)
+    exe = os.path.join(os.environ.get("VERIF_BIN_DIR") or os.path.join(HARNESS, "target", "debug"), name)
     e = dict(os.environ)
     if env:
         e.update(env)
